@@ -284,37 +284,89 @@ func Bytes(min, max int) *rapid.Generator[[]byte] {
 	return rapid.SliceOfN(rapid.Byte(), min, max)
 }
 
-// Layout describes where a slice sits in its backing array.
+// Layout describes where a slice sits in its backing array and what the memory around it holds.
 type Layout struct {
 	Pre  int `json:"pre"`
 	Post int `json:"post"`
+	// Fill selects what the bytes around the slice (in particular its spare capacity) hold: 0 the canary pattern, 1 zeros,
+	// 2 the length of the slice mod 256 (what a length-suffixed copy of the slice would continue with), 3 0x20, 4 the two-byte
+	// big-endian length repeated, 5 0xff, 6 a repetition of the slice's own content. The callee was given len(slice) bytes: what
+	// lies beyond is not its business, whatever it looks like.
+	Fill int `json:"fill,omitempty"`
+	// Tail: Pre is enlarged so that the slice ends exactly at the end of its heap allocation (a size class), with no spare
+	// capacity: one-past-the-end pointer arithmetic then points into a neighbouring object.
+	Tail bool `json:"tail,omitempty"`
 }
 
-// LayoutGen draws a slice layout: interior offset and spare capacity.
+// NumFills is the number of Fill patterns.
+const NumFills = 7
+
+// LayoutGen draws a slice layout: interior offset, spare capacity and surrounding content.
 func LayoutGen() *rapid.Generator[Layout] {
 	return rapid.Custom(func(t *rapid.T) Layout {
-		return Layout{
+		l := Layout{
 			Pre:  rapid.SampledFrom([]int{0, 0, 1, 5, 32}).Draw(t, "pre"),
 			Post: rapid.SampledFrom([]int{0, 1, 1, 7, 64}).Draw(t, "post"),
 		}
+		if Chance(t, "fill", 1, 2) {
+			l.Fill = Pick(t, "fillKind", NumFills)
+		}
+		if Chance(t, "tail", 1, 8) {
+			l.Tail, l.Post = true, 0
+		}
+		return l
 	})
 }
 
 // Canary is the fill byte pattern of guard regions.
 func Canary(i int) byte { return byte(0xA5 ^ (i * 29)) }
 
-// Place returns data laid out as buf[pre : pre+len : pre+len+post] inside a canary-filled buffer, and the
-// whole backing buffer.
+func fillByte(kind, i, n int, data []byte) byte {
+	switch kind {
+	case 1:
+		return 0
+	case 2:
+		return byte(n)
+	case 3:
+		return 0x20
+	case 4:
+		if i%2 == 0 {
+			return byte(n >> 8)
+		}
+		return byte(n)
+	case 5:
+		return 0xff
+	case 6:
+		if len(data) > 0 {
+			return data[i%len(data)]
+		}
+	}
+	return Canary(i)
+}
+
+// Place returns data laid out as buf[pre : pre+len : pre+len+post] inside a filled buffer, and the whole backing buffer.
 func Place(data []byte, l Layout) (slice, backing []byte) {
-	backing = make([]byte, l.Pre+len(data)+l.Post)
+	pre, post := l.Pre, l.Post
+	if l.Tail {
+		post = 0
+		if total := pre + len(data); total <= 256 {
+			want := max(48, (total+15)/16*16) // 48, 64, 80, ... 256 are allocator size classes
+			pre += want - total
+		}
+	}
+	backing = make([]byte, pre+len(data)+post)
 	for i := range backing {
 		backing[i] = Canary(i)
 	}
-	copy(backing[l.Pre:], data)
-	if data == nil && l.Pre == 0 && l.Post == 0 {
+	// what follows the slice starts right behind it (index 0 of the fill pattern is the first byte of the spare capacity)
+	for i := pre + len(data); i < len(backing); i++ {
+		backing[i] = fillByte(l.Fill, i-pre-len(data), len(data), data)
+	}
+	copy(backing[pre:], data)
+	if data == nil && pre == 0 && post == 0 {
 		return nil, backing
 	}
-	return backing[l.Pre : l.Pre+len(data) : l.Pre+len(data)+l.Post], backing
+	return backing[pre : pre+len(data) : pre+len(data)+post], backing
 }
 
 // Chance returns true with probability about num/den. rapid's integer generators are biased towards
